@@ -139,7 +139,7 @@ def MIN_INT : Int := -2147483648
 /-- `coerce_int`: the closed 32-bit interval (`MIN_INT <= n <= MAX_INT`, after fix A1) -/
 def serializeInt (j : J) : Option J :=
   match j with
-  | .bool b => some (.bool b)                    -- `isinstance(True, int)`
+  | .bool b => some (.num (if b then 1 else 0))  -- `isinstance(True, int)`: `numeric = int(maybe_int)` (fix d72dd53: 1 / 0, not true / false)
   | .num n => if MIN_INT ≤ n && n ≤ MAX_INT then some (.num n) else none
   | .str s =>
     match parseIntStr s with
